@@ -32,7 +32,12 @@ def gen_ops(rng, kind, init, n):
     names = sorted(init["byn"]); syms = sorted(init["bys"])
     nobj = init["count"]
     fresh = [0]
-    def fr(p): fresh[0] += 1; return f"vf{p}{fresh[0]}"
+    mynames, mysyms = [], []
+    def fr(p):
+        # letters only: symbols must be lexable by the unit grammar
+        fresh[0] += 1; n = fresh[0]; t = ""
+        while n: t = "abcdefghij"[n % 10] + t; n //= 10
+        return f"vf{p}{t}"
     def pick_name(own_of=None):
         r = rng.random()
         if r < 0.25: return None
@@ -58,13 +63,26 @@ def gen_ops(rng, kind, init, n):
             else:
                 ops.append(["uanon", rng.randrange(nobj), rng.randrange(nobj), rng.choice(["mul", "div", "pow"]),
                             rng.choice([-2, -1, 2, 3])])
+            # a symbol that already resolves before it is declared (prefix symbol + an earlier symbol, or an earlier name used as
+            # a symbol), probed through Unit.resolve_symbol / Unit.parse before and after the declaration
+            if ops[-1][0] in ("udefine", "ualias", "uderive") and rng.random() < 0.35 and (mysyms or mynames):
+                s2 = ("k" + rng.choice(mysyms)) if (mysyms and rng.random() < 0.6) else rng.choice(mynames or mysyms)
+                ops[-1][3] = s2
+                decl = ops.pop()
+                ops.append(["uresolve", s2]); ops.append(decl); ops.append(["uresolve", s2])
+            elif ops[-1][0] in ("udefine", "ualias", "uderive") and ops[-1][3] and " " not in ops[-1][3]:
+                ops.append(["uresolve", ops[-1][3]])
+            for x in [y for o in ops[-3:] for y in o[1:]]:
+                if isinstance(x, str) and x.startswith("vfn") and x not in mynames: mynames.append(x)
+                if isinstance(x, str) and x.startswith("vfs") and x not in mysyms: mysyms.append(x)
             # newly registered names become candidates for later collisions
             for x in ops[-1][1:]:
                 if isinstance(x, str) and x.startswith("vfn"): names.append(x)
                 if isinstance(x, str) and x.startswith("vfs"): syms.append(x)
             nobj += 0
         elif kind == "prefix":
-            ops.append(["pdecl", rng.choice([10, 10, 2, 3, 7]), rng.choice([-9, -6, -4, -3, -2, -1, 1, 2, 3, 4, 5, 6, 7]),
+            # exponent 0 of any base is the identity prefix: a declaration through it must not rename anything
+            ops.append(["pdecl", rng.choice([10, 10, 2, 3, 7]), rng.choice([-9, -6, -4, -3, -2, -1, 0, 0, 1, 2, 3, 4, 5, 6, 7]),
                         pick_name(), pick_sym(spaced_ok=False)])
             for x in ops[-1][3:]:
                 if isinstance(x, str) and x.startswith("vfn"): names.append(x)
@@ -87,6 +105,9 @@ def model_op(kind, op, rec, known_objs):
     spaced = lambda s: "true" if (s is not None and " " in s) else "false"
     if k == "udefine": return ("New", None, op[2], op[3], spaced(op[3]))
     if k in ("ualias", "uderive"): return ("Name", op[1], op[2], op[3], spaced(op[3]))
+    if k == "uresolve":
+        if "err" in rec: return "skip"
+        return ("New", None, None, None, "false") if rec["created"] else ("Name", rec["obj"], None, None, "false")
     if k in ("uanon", "danon"):
         if "err" in rec: return None
         return ("New", None, None, None, "false") if rec["created"] else ("Name", rec["obj"], None, None, "false")
@@ -118,13 +139,26 @@ def main():
                     if not isinstance(pr["exp"], dict):
                         known_objs[(pr["exp"][0], pr["exp"][1]) if pr["base"] else (0, 0)] = i
             items = []
+            item_op = []
             for i, (op, rec) in enumerate(zip(ops, r["results"])):
                 mo = model_op(kind, op, rec, known_objs)
                 c.count([kind, op], nontrivial=True)
                 # ---- the property's own observables on the implementation
                 d = rec["diff"]
                 changed = d["byn"] or d["bys"] or d["nm"] or d["sy"]
-                if "err" in rec:
+                if op[0] == "uresolve":
+                    # a lookup never changes names or symbols, and after a successful declaration of this symbol it returns that object
+                    if changed:
+                        c.violation("lookup-mutates", f"{op} changed the registries: {json.dumps(d)[:200]}", {"kind": kind, "ops": ops[:i + 1]})
+                    if rec.get("err") not in (None, "KeyError"):
+                        c.violation(f"lookup-raises:{rec['err']}", f"{op} raised {rec['err']}: {rec.get('msg')}", {"kind": kind, "ops": ops[:i + 1]})
+                    prevop, prevrec = (ops[i - 1], r["results"][i - 1]) if i else (None, None)
+                    if prevop and prevop[0] in ("udefine", "ualias", "uderive") and prevop[3] == op[1] and "err" not in prevrec:
+                        if rec.get("obj") != prevrec.get("obj"):
+                            c.violation("stale-lookup", f"after {prevop} succeeded, looking up the symbol {op[1]!r} returns another object (or fails: {rec.get('err')})",
+                                        {"kind": kind, "ops": ops[:i + 1]})
+                    if mo == "skip": continue
+                elif "err" in rec:
                     cnt_before = (r["results"][i - 1]["diff"]["count"] if i else init["count"])
                     if changed or d["count"] != cnt_before:
                         c.violation(f"nonatomic:{kind}:{op[0]}", f"{op} raised {rec['err']} but changed the registries: {json.dumps(d)[:300]}",
@@ -135,14 +169,23 @@ def main():
                 else:
                     nm_decl = op[2] if op[0] in ("udefine", "ualias", "uderive", "dderive") else (op[3] if op[0] == "pdecl" else (op[1] if op[0] == "ddefine" else None))
                     sy_decl = op[3] if op[0] in ("udefine", "ualias", "uderive") else (op[4] if op[0] == "pdecl" else None)
+                    if op[0] == "pdecl" and op[2] == 0: nm_decl = sy_decl = None
                     if nm_decl and nm_decl not in rec["reports"][0]:
                         c.violation(f"unreported:{kind}:{op[0]}", f"{op} succeeded but the object reports names {rec['reports'][0]}",
                                     {"kind": kind, "ops": ops[:i + 1]})
                     if sy_decl and sy_decl not in rec["reports"][1]:
                         c.violation(f"unreported:{kind}:{op[0]}", f"{op} succeeded but the object reports symbols {rec['reports'][1]}",
                                     {"kind": kind, "ops": ops[:i + 1]})
-                    if kind == "prefix" and op[0] == "pdecl":
+                    if kind == "prefix" and op[0] == "pdecl" and op[2] != 0:
                         known_objs[(op[1], op[2])] = rec["obj"]
+                if op[0] == "pdecl" and op[2] == 0:
+                    # base**0 is the identity prefix: with a name or symbol the declaration is refused, without it is a no-op
+                    if (op[3] or op[4]) and "err" not in rec:
+                        c.violation("identity-renamed", f"{op} declared a name/symbol through base**0 and did not raise: the declaration is lost or rebinds the identity prefix",
+                                    {"kind": kind, "ops": ops[:i + 1], "diff": d})
+                    if changed:
+                        c.violation("identity-renamed", f"{op} changed the registries: {json.dumps(d)[:300]}", {"kind": kind, "ops": ops[:i + 1]})
+                    continue
                 if mo is None:
                     break
                 out = "Raised" if "err" in rec else f"(Done {cnat(rec['obj'])})"
@@ -150,12 +193,12 @@ def main():
                     cop = f"(New {K(mo[2])} {K(mo[3])} {mo[4]})"
                 else:
                     cop = f"(Name {cnat(mo[1])} {K(mo[2])} {K(mo[3])} {mo[4]})"
-                items.append(f"({cop}, {out}, {coq_diff(d, K)})")
+                items.append(f"({cop}, {out}, {coq_diff(d, K)})"); item_op.append(i)
             if p == 0:
                 c.sample({"kind": kind, "ops": ops[:5], "outcomes": [x.get("err", "ok") for x in r["results"][:5]]})
             multi = "true" if kind == "unit" else "false"
             name = f"Run_C19_{kind}_{p}"
-            meta[name] = (kind, ops)
+            meta[name] = (kind, ops, item_op, r["results"])
             files[name] = RHEADER + f"""
 Definition initial : reg := {coq_reg(init, K)}.
 (* the registries left by importing the shipped modules are faithful: no name or symbol is
@@ -172,7 +215,7 @@ Proof. vm_compute. reflexivity. Qed.
     for n, (ok, log) in sorted(outs.items()):
         c.oblige(f"{n}: initial_inv + run_agrees (registry machine = implementation after every call)", ok, log[-600:])
         if not ok:
-            kind, ops = meta[n]
+            kind, ops, item_op, results = meta[n]
             txt = files[n].replace("Lemma run_agrees : first_mismatch", "Eval vm_compute in (first_mismatch").replace(
                 " initial 0 history = None.\nProof. vm_compute. reflexivity. Qed.", " initial 0 history).")
             txt = txt.replace("Lemma initial_inv : rinvb initial = true.\nProof. vm_compute. reflexivity. Qed.", "Eval vm_compute in (rinvb initial).").replace(
@@ -182,7 +225,9 @@ Proof. vm_compute. reflexivity. Qed.
             m = re.search(r"Some (\d+)", dlog)
             if m:
                 i = int(m.group(1))
-                c.cov.setdefault("first_mismatch", []).append({"file": n, "index": i, "op": ops[i]})
+                j = item_op[i] if i < len(item_op) else None
+                c.cov.setdefault("first_mismatch", []).append({"file": n, "index": j, "op": ops[j] if j is not None else None,
+                                                               "impl": results[j] if j is not None else None, "before": ops[max(0, (j or 0) - 3):j]})
     # ---- module import orders: the final bindings do not depend on the order
     norders = 6 if c.tier == "quick" else 40
     digests = {}
